@@ -136,6 +136,7 @@ def check(prop, tier, seed, nruns=None, nworkers=None, quiet=False):
         order = sorted(results)
         errors = [results[r] for r in order if not results[r].get("ok")]
         faults, probes, sigs = {}, {}, set()
+        comp_runs = {}
         compared = 0
         sim_time = 0.0
         samples = []
@@ -153,6 +154,8 @@ def check(prop, tier, seed, nruns=None, nworkers=None, quiet=False):
             if o["compared"] > 0:
                 nontrivial_runs += 1
                 sigs.update(o["sigs"])
+                for c in set(sg.split("/")[0] for sg in o["sigs"]):
+                    comp_runs[c] = comp_runs.get(c, 0) + 1
             compared += o["compared"]
             sim_time += o.get("sim_time", 0.0)
             digest_all.append(o["digest"])
@@ -223,6 +226,7 @@ def check(prop, tier, seed, nruns=None, nworkers=None, quiet=False):
                 "simulated_time": {"unit": mod_meta.get("time_unit", "none - logical steps only"), "total": round(sim_time, 3)},
                 "faults_fired": faults,
                 "probes": probes,
+                "runs_by_first_signature_part": dict(sorted(comp_runs.items())),
                 "unreached": unreached,
                 "hashseeds": list(kernel.HASHSEEDS),
                 "workers": len(pool.procs),
